@@ -15,7 +15,86 @@ FUNCS = [b'ABS', b'INT', b'SQR', b'LEN', b'ASC', b'VAL', b'PEEK', b'RND', b'CHR$
 WORD_OPS = [b'AND', b'OR', b'XOR', b'EQV', b'IMP', b'MOD']
 FLOAT_TEXTS = [b'1.5', b'.25', b'1E10', b'1.5D-3', b'123456789', b'3.141593', b'1!', b'2#', b'.5#', b'100000',
                b'1E-38', b'1.234567E+10', b'9999999', b'1D0', b'16777216', b'3#', b'32768', b'65535', b'0.1',
-               b'1.5E+20', b'2.5D+100', b'12345678.9', b'1D-300', b'.0015#', b'7!', b'4.25', b'1E5', b'99999.5']
+               b'1.5E+20', b'2.5D+100', b'12345678.9', b'1D-300', b'.0015#', b'7!', b'4.25', b'1E5', b'99999.5',
+               # doubles with a fractional part and few digits, whole doubles, D / E exponents, suffix forms,
+               # 7 versus 8 and more digits
+               b'1.25#', b'1234.5#', b'.75#', b'.0009765625#', b'100000#', b'0#', b'0!', b'1234567', b'12345678',
+               b'1048576.5', b'8388607.5', b'1234567890123456', b'1D5', b'5D-1', b'1.5D+10', b'2.5E-1', b'1.5E+3',
+               b'.0078125', b'2.5#', b'65536#', b'32768!', b'.5', b'.5!', b'1.75D+2', b'6.25E-2', b'3.0517578125D-5',
+               b'4294967296', b'1E+15', b'1D+15', b'123456.5', b'1234567.5']
+
+
+def literal_value(lit):
+    """exact value, number of significant digits and double-marker of a BASIC float literal text
+    (digits [. digits] [E|D [sign] digits] [!|#]) - independent reference, no pcbasic code."""
+    from fractions import Fraction
+    t = bytes(lit).upper()
+    forced = None
+    if t[-1:] in (b'!', b'#'):
+        forced = t[-1:]
+        t = t[:-1]
+    exp = 0
+    isd = False
+    for ch in (b'E', b'D'):
+        if ch in t:
+            t, e = t.split(ch, 1)
+            exp = int(e or b'0')
+            isd = ch == b'D'
+    ip, _, fp = t.partition(b'.')
+    digits = (ip + fp).lstrip(b'0')
+    mant = int(ip + fp or b'0')
+    val = Fraction(mant) * Fraction(10) ** (exp - len(fp))
+    return val, len(digits), forced, isd
+
+
+def exactly_representable(lit):
+    """the literal has at most 7 (single) / 16 (double) significant digits and its value is exactly an MBF
+    single / double of the type the literal denotes."""
+    val, nd, forced, isd = literal_value(lit)
+    double = forced == b'#' or isd or (forced is None and nd > 7)
+    if nd > (16 if double else 7):
+        return False
+    if val == 0:
+        return True
+    q = val.denominator
+    if q & (q - 1):
+        return False
+    p = val.numerator
+    while p % 2 == 0:
+        p //= 2
+    if p.bit_length() > (56 if double else 24):
+        return False
+    return Fraction_log2_ok(val)
+
+
+def Fraction_log2_ok(val):
+    # MBF exponent range 2^-128 .. 2^126
+    from fractions import Fraction
+    return Fraction(1, 2 ** 127) <= val < Fraction(2 ** 126)
+
+
+def random_exact_literal(rng):
+    """a random exactly representable literal of a random shape."""
+    j = rng.choice([0, 0, 1, 1, 2, 3, 4, 6])
+    double = rng.random() < 0.5
+    a = rng.randrange(1, 10 ** rng.choice([1, 2, 3, 5, 6] if not double else [1, 3, 6, 9, 11]))
+    from fractions import Fraction
+    val = Fraction(a, 2 ** j)
+    # decimal expansion of a / 2^j is finite: a * 5^j / 10^j
+    num = a * 5 ** j
+    s = (b'%d' % num).rjust(j + 1, b'0')
+    txt = s[:len(s) - j] + (b'.' + s[len(s) - j:] if j else b'')
+    txt = txt.lstrip(b'0') or b'0'
+    if b'.' in txt:
+        txt = txt.rstrip(b'0').rstrip(b'.') or b'0'
+    shape = rng.randrange(5)
+    if double:
+        txt = txt + (b'#' if shape < 3 else b'D0' if shape == 3 else b'D+00')
+    else:
+        txt = txt + (b'' if shape < 2 else b'!' if shape < 4 else b'E0')
+    return txt
+
+
 STR_BODIES = [b'HELLO', b'', b'a b', b'1,2', b':', b"'", b'REM', b'x\xff\x80', b'GOTO 10', b'\x01\x7f', b'&HFF']
 REM_TAILS = [b' hello world', b'', b' GOTO 10', b' x:y', b" it's", b' a"b', b':', b'  spaced  ', b' \xc4\xd6', b' "q', b'-']
 QUOTE_TAILS = REM_TAILS + [b'hello', b'A', b'1', b'\xd9']
